@@ -124,11 +124,14 @@ def oracle(case, obs, ctx, idx):
     ended = False
     exclusive_cut_at_end = False
     all_times = [e[2] for e in base.get("log", []) if e[0] == "exec"]
+    seg_stopped = False
     for ent in obs["log"]:
         if ent[0] == "exec":
             if ent[2] > end:
                 return ("event-executed-after-end", f"event {ent[1]} ran at {ent[2]}/4, replication end {end}/4"), facts
             seg_exec.append(ent)
+        elif ent[0] == "ntf" and ent[1] == "stopping":
+            seg_stopped = True
         elif ent[0] == "cmd":
             c, r, rs, ps, clk, npend = ent[1], ent[2], ent[3], ent[4], ent[5], ent[6]
             if r not in ("ok", "refused"):
@@ -138,11 +141,10 @@ def oracle(case, obs, ctx, idx):
                 inc = c[0] == "runuptoincl"
                 if t > end:
                     t, inc = end, True
-                stopped_early = any(a[0] == "cmd" and a[1][0] == "stop" for body in case["prog"] for a in body)
                 for e in seg_exec:
                     if e[2] > t or (e[2] == t and not inc):
                         return ("bounded-run-executed-event-beyond-bound", f"{c}: event {e[1]} at {e[2]}/4"), facts
-                if not stopped_early:
+                if not seg_stopped:
                     if clk != t:
                         return ("bounded-run-clock-not-at-bound", f"{c}: clock {clk}/4 after the run"), facts
                     if t < end:
@@ -153,6 +155,8 @@ def oracle(case, obs, ctx, idx):
                             return ("bounded-run-not-resumable", f"{c}: state after the run {rs}/{ps}, end {end}/4"), facts
                     elif not inc:
                         exclusive_cut_at_end = True
+                elif (rs, ps) != ("STOPPED", "STARTED"):
+                    return ("stopped-run-not-resumable", f"{c}: state after stop() {rs}/{ps}"), facts
             if c[0] in ("runupto", "runuptoincl") and r == "refused" and rs == "STOPPED" and ps == "STARTED" \
                     and c[1] != "nan" and c[1] >= clk and clk < end:
                 return ("resumable-run-refused", f"{c} refused at clock {clk}/4 in state {rs}/{ps}"), facts
@@ -162,16 +166,17 @@ def oracle(case, obs, ctx, idx):
                     return ("step-executed-several-events", f"{len(seg_exec)} events in one step"), facts
             if c[0] == "start" and r == "ok" and seg_exec and clock_before > start and rs == "STOPPED":
                 facts["stop_start"] = True
+            if seg_stopped and r == "ok":
+                facts["stop_start"] = True
             if clk < clock_before:
                 return ("clock-went-backwards", f"{c}: clock {clock_before}/4 -> {clk}/4"), facts
             clock_before = clk
             ended = (rs == "ENDED")
             seg_exec = []
+            seg_stopped = False
     tr = obs["trace"]
     bt = base["trace"]
     facts["executed"] = len(tr)
-    if any(a[0] == "cmd" and a[1][0] == "stop" for body in case["prog"] for a in body) and len(tr) >= 2:
-        facts["stop_start"] = True
     if ended and not exclusive_cut_at_end:
         if tr != bt:
             return ("segmented-run-differs-from-uninterrupted-run",
@@ -197,7 +202,7 @@ RULE = ("bounded-exhaustive: every sequence of <= 2 cuts (quick: + 400 sampled t
 
 def main(tier: str) -> int:
     return c02.main(tier, pid=PID, gen=gen_case, oracle_fn=oracle, prepare=prepare, rule=RULE,
-                    n_quick=1200, n_thorough=12000, extra_cases=extra_cases,
+                    n_quick=2400, n_thorough=60000, extra_cases=extra_cases,
                     targets=["Sim/Case.vo", "Sim/Horizon.vo", "Props/C03.vo"])
 
 
